@@ -17,4 +17,10 @@ TEXT = {
         "level_text": "Generated-input search. Round trip: multisets of 1..6 protocols (all kinds, unknown codes up to 2^62, payloads to 900 B, repeated IDs) in two construction orders are encoded and compared with an independently written encoder (hand-written varint + DAG-CBOR), decoded, compared, looked up by ID and re-encoded. Decoder: raw bytes, mutated valid encodings, hostile varint / CBOR length prefixes up to MaxMetadataSize; oracle = no panic, input untouched, runtime TotalAlloc delta <= 64*len+64KiB, success implies re-encoding equals the input. Thorough adds coverage-guided native fuzzing of the same oracle. Found and led to 5 fix commits; one third-party allocation behaviour stays a known finding.",
         "level_note": "Trusted: the harness's own encoder of the wire format (written from the IPNI spec and multicodec table), runtime.MemStats as allocation meter (single goroutine). KF-C11-1 region (graphsync CBOR declaring a string longer than the remaining input) is recognised by an independent CBOR walk, counted in coverage.excluded_known and still bounded by 3x declared length.",
     },
+    "C12": {
+        "engine": "h23",
+        "technique": "property-based testing (rapid) + bounded-exhaustive tamper enumeration; model-based check of the reader-privacy client against an independent in-memory dhstore",
+        "level_text": "Generated-input search: round trip, determinism and fail-closed behaviour of the three encryption APIs under every tamper kind (truncate to any length, flip any bit, append, wrong passphrase); an exhaustive sweep of every truncation length, nonce/ciphertext split and single-bit flip for payloads of 0..6 (quick) / 0..24 (thorough) bytes; value-key split and second-hash against an independent SHA-256 computation; and small indexes stored through the dhash functions into an independent in-memory dhstore (via the DHStoreAPI interface or the library's HTTP dhstore client on loopback), with garbage value keys mixed in, compared as multisets with what DHashClient.Find returns.",
+        "level_note": "Trusted: crypto/sha256 and the harness's 64-byte CR_DOUBLEHASH prefix constant (from the IPNI reader-privacy spec); loopback HTTP for the http transport variant. Metadata >= 1 byte and one metadata per (provider, context) by construction of the domain.",
+    },
 }
